@@ -114,4 +114,66 @@ theorem respView_norm_respVal_all (clock : Nat) (H : Nat → ItemIn → HRes) (r
   exact hm
 
 
+
+/-! ### well-formedness of the two messages from that of their items -/
+
+theorem wire_zeroAuth_eq' : FV.one zeroAuth = zeroFld (.mk "Authentication" 0x42000c false false false (.struct KmipGen.sd_Authentication)) := by
+  simp [zeroFld, zeroSD, zeroFlds, zeroVal, zeroAuth, KmipGen.sd_Authentication]
+
+/-- the Request `Client.Send` builds is well-formed as soon as its one batch item is (version numbers and operation code in
+    int32 / enumeration range) -/
+theorem wf_mkRequest (ver : Nat × Nat) (op : Nat) (p : DynV) (hv1 : ver.1 < two32) (hv2 : ver.2 < two32)
+    (hitem : WFv (.struct KmipGen.sd_RequestBatchItem) (.struct [.one (.enum op), .one (.bytes []), .dyn p, .one wireZExt])) :
+    WFv (.struct KmipGen.sd_Request) (mkRequest wireZExt ver op p) := by
+  simp only [mkRequest, WFv, WFflds, WFfv, WFmany, KmipGen.sd_Request, KmipGen.sd_RequestHeader,
+    KmipGen.sd_ProtocolVersion, SD.fields, Fld.ignored, Fld.required, Fld.ty, Fld.tag, Fld.skip, Fld.slice]
+  refine ⟨⟨trivial, by decide, Or.inr ⟨?ver, ?mrs, ?cc, ?sc, ?asy, ?ac, ?att, ?au, ?be, ?bo, ?ts, ?bc, trivial⟩⟩, ⟨trivial, by decide, fun _ => by simp, ⟨?item, trivial⟩⟩, trivial⟩
+  case ver => exact ⟨trivial, by decide, Or.inr ⟨⟨trivial, by decide, Or.inr ⟨trivial, hv1⟩⟩, ⟨trivial, by decide, Or.inr ⟨trivial, hv2⟩⟩, trivial⟩⟩
+  case mrs => exact ⟨trivial, by decide, Or.inr ⟨trivial, by decide⟩⟩
+  case cc => exact ⟨trivial, by decide, Or.inr ⟨trivial, by decide⟩⟩
+  case sc => exact ⟨trivial, by decide, Or.inr ⟨trivial, by decide⟩⟩
+  case asy => exact ⟨trivial, by decide, Or.inr trivial⟩
+  case ac => exact ⟨trivial, by decide, Or.inr trivial⟩
+  case att => exact ⟨trivial, by decide, fun h => by simp at h, trivial⟩
+  case au => exact ⟨trivial, by decide, Or.inl ⟨trivial, wire_zeroAuth_eq'⟩⟩
+  case be => exact ⟨trivial, by decide, Or.inr ⟨trivial, by decide⟩⟩
+  case bo => exact ⟨trivial, by decide, Or.inr trivial⟩
+  case ts => exact ⟨trivial, by decide, Or.inr ⟨trivial, by decide⟩⟩
+  case bc => exact ⟨trivial, by decide, Or.inr ⟨trivial, by decide⟩⟩
+  case item => exact hitem
+
+theorem wire_zeroNonce_eq : FV.one wireZNonce = zeroFld (.mk "Nonce" 0x4200c8 false false false (.struct KmipGen.sd_Nonce)) := by
+  simp [zeroFld, zeroSD, wireZNonce]
+
+/-- the Response handleBatch builds is well-formed as soon as its items are (and the echoed header values were) -/
+theorem wf_respVal (clock : Nat) (H : Nat → ItemIn → HRes) (rq : ReqView)
+    (hver : WFv (.struct KmipGen.sd_ProtocolVersion) rq.version) (hclock : clock < two64) (hcorr : rq.corr.length < two32)
+    (hbc : rq.batchCount < two32) (hne : rq.items ≠ [])
+    (hitems : WFmany (.struct KmipGen.sd_ResponseBatchItem) (respItems wireZExt H 0 rq.items)) :
+    WFv (.struct KmipGen.sd_Response) (respVal wireZNonce wireZExt clock H rq) := by
+  simp only [respVal, WFv, WFflds, WFfv, KmipGen.sd_Response, KmipGen.sd_ResponseHeader,
+    SD.fields, Fld.ignored, Fld.required, Fld.ty, Fld.tag, Fld.skip, Fld.slice]
+  refine ⟨⟨trivial, by decide, Or.inr ⟨?ver, ?ts, ?nonce, ?att, ?cc, ?sc, ?bc, trivial⟩⟩, ⟨trivial, by decide, fun _ => ?ne, hitems⟩, trivial⟩
+  case ver => exact ⟨trivial, by decide, Or.inr hver⟩
+  case ts => exact ⟨trivial, by decide, Or.inr ⟨trivial, hclock⟩⟩
+  case nonce => exact ⟨trivial, by decide, Or.inl ⟨trivial, wire_zeroNonce_eq⟩⟩
+  case att => exact ⟨trivial, by decide, fun h => by simp at h, trivial⟩
+  case cc => exact ⟨trivial, by decide, Or.inr ⟨trivial, hcorr⟩⟩
+  case sc => exact ⟨trivial, by decide, Or.inr ⟨trivial, by decide⟩⟩
+  case bc => exact ⟨trivial, by decide, Or.inr ⟨trivial, hbc⟩⟩
+  case ne =>
+    cases hi : rq.items with
+    | nil => exact absurd hi hne
+    | cons it rest => simp [respItems]
+
+/-- what handleBatch reads in the (decoded) Request `Client.Send(op, p)` built -/
+def sendView (ver : Nat × Nat) (op : Nat) (p : DynV) : ReqView :=
+  { version := .struct [.one (.int ver.1), .one (.int ver.2)], corr := [], async := false, credType := 0, batchCount := 1,
+    items := [{ op := op, uid := [], payload := normDyn p }] }
+
+theorem wf_sendView_version (ver : Nat × Nat) (hv1 : ver.1 < two32) (hv2 : ver.2 < two32) :
+    WFv (.struct KmipGen.sd_ProtocolVersion) (.struct [.one (.int ver.1), .one (.int ver.2)]) := by
+  simp only [WFv, WFflds, WFfv, KmipGen.sd_ProtocolVersion, SD.fields, Fld.ignored, Fld.required, Fld.ty, Fld.tag, Fld.skip, Fld.slice]
+  exact ⟨⟨trivial, by decide, Or.inr ⟨trivial, hv1⟩⟩, ⟨trivial, by decide, Or.inr ⟨trivial, hv2⟩⟩, trivial⟩
+
 end Kmip
